@@ -199,12 +199,19 @@ check(int t, const int *seq, int n)
 static int
 alphabet(int t, int *al, int max)
 {
-	static const int cand[] = {
+	static const int cand_pos[] = {
 		0, 1, 2, 30, 31, 32, 33, 62, 63, 64, 65, 382, 383, 384, 446, 447,
 		-1, -2, -31, -32, -33, -63, -64, -383, -447, -30, -62, -382,
 	};
+	/* --opt alph=neg: the negative end first (the smallest value and its neighbours, both containers) */
+	static const int cand_neg[] = {
+		-447, -446, -445, -383, -382, -381, -1, -2, -63, -64, -65, -31, -32, -33, 0, 447, 383, 1, 63, 31, -30, -62,
+	};
+	const int negfirst = !strcmp(vd_opt("alph", "pos"), "neg");
+	const int *cand = negfirst ? cand_neg : cand_pos;
+	const size_t ncand = negfirst ? sizeof(cand_neg) / sizeof(*cand_neg) : sizeof(cand_pos) / sizeof(*cand_pos);
 	int n = 0;
-	for (size_t i = 0; i < sizeof(cand) / sizeof(*cand) && n < max; i++) {
+	for (size_t i = 0; i < ncand && n < max; i++) {
 		if (cand[i] >= tlo[t] && cand[i] <= thi[t]) {
 			al[n++] = cand[i];
 		}
